@@ -230,7 +230,8 @@ def core (c : CoreCell) : Res (Option Method × Option Bool) :=
   -- ... unless there is no chunk function (only blockwise is possible): every block then reports its own groups
   let r1 := if !fallback && c.method = none && r1 = some true && m0 = .blockwise && !c.byDask then some false else r1
   -- none of the requested labels occurs in any block: nothing to split into cohorts / to run blockwise
-  let m := if cohortsEmpty && (m1 = .cohorts || (c.method = none && m1 = .blockwise)) then .mapReduce else m1
+  -- (reductions without a chunk function can only run blockwise: they are left alone)
+  let m := if cohortsEmpty && !k.chunkNone && (m1 = .cohorts || (c.method = none && m1 = .blockwise)) then .mapReduce else m1
   if k.chunkNone && m ≠ .blockwise then .err .notImplemented else
   if k.isArg && m = .blockwise && !c.singleBlock then .err .notImplemented else
   if !c.ax.naxEqNdim && (m = .blockwise || m = .cohorts) then .err .notImplemented else
